@@ -40,6 +40,8 @@ TECHNIQUE = "exhaustive enumeration of a scripted random source + GF(2) rank tes
 #: thorough tier: seed-dependent tasks are repeated under this many derived seeds (run.py); the listed task functions enumerate fixed domains
 THOROUGH_REPS = 2
 DETERMINISTIC_FNS = ('t_exh_bytes', 't_exh_str', 't_context_salt', 't_linear_bytes')
+RULE += " A salt option is tried globally, per scheme and per user category, and hashes are drawn for every category. cisco_type7 offsets cover 0..15 uniformly; libpass salts (scripted chooser for the exact part, chi-square per position for the real one) have ceil(entropy/log2 N) characters of the alphabet."
+ASSUMPTIONS = [('libpass._salt draws through secrets.choice: the module attribute is replaced by a scripted chooser for the exact part, the real one is used for the statistics' if a.startswith('libpass._salt uses secrets.cho') or 'libpass._salt uses secrets.cho' in a else a) for a in ASSUMPTIONS]
 
 ALPHABETS = [
     "01", "abc", "0123456789", "0123456789abcdef", table.H64, table.DJANGO_SALT,
